@@ -14,6 +14,21 @@
 //!   consist         the four API answers all derive from one joint_mle triple       -> consistent | inconsistent <what>
 //!   jhist           joint_mle's only-A/only-B equal mle(counts(merge(A,B))) - mle(counts(B|A)) at relerr 0.01 -> same | differ
 //!   jbound          union / intersection estimates against the true sizes (10 sigma of |A ∪ B|, + 1) -> within | outside <what>
+//!
+//! histories: a sketch that already has content receives more, through every entry point; the true
+//! set of a sketch is then a union of index ranges and every op above refers to that union
+//!   add A|B <start> <n>             add_hash(splitmix64(i)) onto what is there                      -> nz=..
+//!   upd A|B api|ffi <num> <start> <n>   a KmerMinHash (scaled = 1 when num = 0, else a num sketch with
+//!                                   num >= n: it keeps every hash) of that range, then
+//!                                   `mh.update(&mut hll)` / hll_update_mh                            -> nz=..
+//!   mrg A|B                         A.merge(&B) / B.merge(&A)                                        -> nz=..
+//!   reload A|B file|gz|buf          save + from_path / hll_to_buffer + from_reader / BufReader      -> nz=..
+use sourmash::encodings::HashFunctions;
+use sourmash::ffi::hyperloglog::{hll_to_buffer, hll_update_mh, SourmashHyperLogLog};
+use sourmash::ffi::minhash::SourmashKmerMinHash;
+use sourmash::ffi::utils::ForeignObject;
+use sourmash::prelude::*;
+use sourmash::sketch::minhash::KmerMinHash;
 use sourmash::signature::SigsTrait;
 use sourmash::sketch::hyperloglog::estimators;
 use sourmash::sketch::hyperloglog::HyperLogLog;
@@ -134,6 +149,86 @@ fn gen(a: &Args) {
         let kind = if off == na { "disjoint" } else if off + nb <= na { "nested" } else { "partial" };
         pair(&mut o, p, s, na, s + off, nb, kind);
     }
+    // ---- histories: a non-empty receiver updated from a MinHash with ~m .. 10m new hashes, further
+    // add_hash calls, merges; the estimates must sit in the window of the TRUE union size
+    for p in 4..=18u32 {
+        let m = 1u64 << p;
+        let (cap0, cap1) = if thorough { (4 * m, 16 * m) } else { (30_000, 60_000) };
+        for &n0 in &[m / 2, 2 * m] {
+            for &n1 in &[m, 10 * m] {
+                for rel in 0..2 {
+                    let (n0, n1) = (n0.min(cap0), n1.min(cap1));
+                    let s = r.bits(40);
+                    // the update is disjoint from the receiver's set, or shares half of the smaller one
+                    let s1 = if rel == 0 { s + n0 + r.below(1000) } else { s + n0 - n0.min(n1) / 2 };
+                    let api = if r.chance(1, 2) { "api" } else { "ffi" };
+                    let num = if r.chance(1, 3) { n1 + r.below(3) } else { 0 };
+                    let mut v = vec![format!("A {} {} {}", p, s, n0), format!("upd A {} {} {} {}", api, num, s1, n1)];
+                    for op in ["hist A", "card A", "cardint A", "bound A"] {
+                        v.push(op.into());
+                    }
+                    // B: the same union sketched by plain add_hash, plus something on top now and then
+                    let lo = s.min(s1);
+                    let hi = (s + n0).max(s1 + n1);
+                    let extra = if r.chance(1, 2) { 0 } else { r.below(m.min(cap0)) };
+                    v.push(format!("B {} {} {}", p, lo, hi - lo + extra));
+                    for op in ["joint", "api", "consist", "jhist", "jbound"] {
+                        v.push(op.into());
+                    }
+                    o.push(("upd-nonempty".into(), v));
+                }
+            }
+        }
+        // longer histories: update into empty, add more, update again, merge another sketch
+        let reps = if thorough { 6 } else { 2 };
+        for _ in 0..reps {
+            let unit = m.min(if thorough { 4 * m } else { 12_000 });
+            let s = r.bits(40);
+            let mut v = vec![format!("A {} {} 0", p, s)];
+            let mut at = s;
+            for step in 0..r.range(3, 5) {
+                let n = r.range(unit / 2, 2 * unit).max(1);
+                // sometimes step back into what is already there
+                let from = if r.chance(1, 3) { at.saturating_sub(r.below(n)) .max(s) } else { at + r.below(50) };
+                match (step + r.below(2)) % 3 {
+                    0 => v.push(format!("upd A {} {} {} {}", if r.chance(1, 2) { "api" } else { "ffi" }, if r.chance(1, 3) { n } else { 0 }, from, n)),
+                    1 => v.push(format!("add A {} {}", from, n)),
+                    _ => {
+                        v.push(format!("B {} {} {}", p, from, n));
+                        v.push("mrg A".into());
+                    }
+                }
+                at = at.max(from + n);
+                if r.chance(1, 2) {
+                    v.push("bound A".into());
+                }
+            }
+            for op in ["hist A", "card A", "bound A"] {
+                v.push(op.into());
+            }
+            v.push(format!("B {} {} {}", p, s + r.below(unit), unit));
+            v.push(format!("upd B api 0 {} {}", at, unit));
+            for op in ["joint", "api", "consist", "jhist", "jbound", "bound B"] {
+                v.push(op.into());
+            }
+            o.push(("history".into(), v));
+        }
+        // estimates of a sketch that went through save / load
+        for route in ["file", "gz", "buf"] {
+            let n = r.range(m, 4 * m).min(if thorough { 4 * m } else { 60_000 });
+            let s = r.bits(40);
+            let mut v = vec![format!("A {} {} {}", p, s, n), format!("reload A {}", route)];
+            for op in ["hist A", "card A", "bound A"] {
+                v.push(op.into());
+            }
+            v.push(format!("B {} {} {}", p, s + n / 2, n));
+            v.push(format!("reload B {}", *r.pick(&["file", "gz", "buf"])));
+            for op in ["joint", "api", "consist", "jbound"] {
+                v.push(op.into());
+            }
+            o.push(("reload".into(), v));
+        }
+    }
     for i in (1..o.len()).rev() {
         let j = r.below(i as u64 + 1) as usize;
         o.swap(i, j);
@@ -153,8 +248,33 @@ fn gen(a: &Args) {
 struct Sk {
     h: HyperLogLog,
     p: usize,
-    start: u64,
-    n: u64,
+    /// the true set: the union of these index ranges (start, n) of the splitmix64 stream
+    ranges: Vec<(u64, u64)>,
+}
+
+/// size of a union of index ranges
+fn union_size(ranges: &[(u64, u64)]) -> u64 {
+    let mut v: Vec<(u64, u64)> = ranges.iter().filter(|r| r.1 > 0).map(|r| (r.0, r.0 + r.1)).collect();
+    v.sort_unstable();
+    let (mut total, mut end) = (0u64, 0u64);
+    for (lo, hi) in v {
+        let lo = lo.max(end);
+        if hi > lo {
+            total += hi - lo;
+            end = hi;
+        }
+    }
+    total
+}
+
+impl Sk {
+    fn n(&self) -> u64 {
+        union_size(&self.ranges)
+    }
+}
+
+fn nz(h: &HyperLogLog) -> usize {
+    h.to_vec().iter().filter(|x| **x != 0).count()
 }
 #[derive(Default)]
 struct St {
@@ -233,11 +353,11 @@ fn within(est: u64, truth: u64, scale: u64, p: usize, mult: u64, slack: u64) -> 
 }
 
 fn overlap(a: &Sk, b: &Sk) -> (u64, u64) {
-    // true |A ∩ B| and |A ∪ B| of the two index ranges (splitmix64 is injective)
-    let lo = a.start.max(b.start);
-    let hi = (a.start + a.n).min(b.start + b.n);
-    let inter = hi.saturating_sub(lo);
-    (inter, a.n + b.n - inter)
+    // true |A ∩ B| and |A ∪ B| of the two unions of index ranges (splitmix64 is injective)
+    let mut all = a.ranges.clone();
+    all.extend_from_slice(&b.ranges);
+    let union = union_size(&all);
+    (a.n() + b.n() - union, union)
 }
 
 fn step(st: &mut St, ws: &[&str]) -> String {
@@ -258,14 +378,83 @@ fn step(st: &mut St, ws: &[&str]) -> String {
             for i in 0..n {
                 h.add_hash(splitmix64(start + i));
             }
-            let sk = Some(Sk { h, p, start, n });
-            let nz = sk.as_ref().unwrap().h.to_vec().iter().filter(|x| **x != 0).count();
+            let sk = Some(Sk { h, p, ranges: vec![(start, n)] });
+            let nz = nz(&sk.as_ref().unwrap().h);
             if ws[0] == "A" {
                 st.a = sk
             } else {
                 st.b = sk
             }
             format!("nz={}", nz)
+        }
+        "add" | "upd" | "reload" => {
+            let sk = match if ws[1] == "A" { st.a.as_mut() } else { st.b.as_mut() } {
+                Some(s) => s,
+                None => return "none".into(),
+            };
+            match ws[0] {
+                "add" => {
+                    let (start, n): (u64, u64) = (ws[2].parse().unwrap(), ws[3].parse().unwrap());
+                    for i in 0..n {
+                        sk.h.add_hash(splitmix64(start + i));
+                    }
+                    sk.ranges.push((start, n));
+                }
+                "upd" => {
+                    let (num, start, n): (u32, u64, u64) = (ws[3].parse().unwrap(), ws[4].parse().unwrap(), ws[5].parse().unwrap());
+                    let mut hs: Vec<u64> = (0..n).map(|i| splitmix64(start + i)).collect();
+                    hs.sort_unstable();
+                    let mut mh = KmerMinHash::new(if num == 0 { 1 } else { 0 }, 21, HashFunctions::Murmur64Dna, 42, false, num);
+                    for h in &hs {
+                        mh.add_hash(*h);
+                    }
+                    assert_eq!(mh.mins().len() as u64, n);
+                    if ws[2] == "ffi" {
+                        unsafe { hll_update_mh(&mut sk.h as *mut HyperLogLog as *mut SourmashHyperLogLog, SourmashKmerMinHash::from_ref(&mh)) };
+                    } else {
+                        mh.update(&mut sk.h).unwrap();
+                    }
+                    sk.ranges.push((start, n));
+                }
+                _ => {
+                    let dir = tempfile::Builder::new().prefix("verif-c18-").tempdir().unwrap();
+                    let path = dir.path().join("x.hll");
+                    let loaded = match ws[2] {
+                        "file" => {
+                            sk.h.save(&path).unwrap();
+                            HyperLogLog::from_path(&path)
+                        }
+                        "gz" => unsafe {
+                            let mut size = 0usize;
+                            let ptr = hll_to_buffer(SourmashHyperLogLog::from_ref(&sk.h), &mut size);
+                            assert!(!ptr.is_null());
+                            let buf = Vec::from_raw_parts(ptr as *mut u8, size, size);
+                            HyperLogLog::from_reader(&buf[..])
+                        },
+                        _ => {
+                            let mut buf = vec![];
+                            sk.h.save_to_writer(&mut buf).unwrap();
+                            HyperLogLog::from_reader(std::io::BufReader::new(&buf[..]))
+                        }
+                    };
+                    match loaded {
+                        Ok(h) => sk.h = h,
+                        Err(e) => return format!("err {:?}", e).split(['(', ' ', '{']).take(2).collect::<Vec<_>>().join(" "),
+                    }
+                }
+            }
+            format!("nz={}", nz(&sk.h))
+        }
+        "mrg" => {
+            let (dst, src) = if ws[1] == "A" { (st.a.as_mut(), st.b.as_ref()) } else { (st.b.as_mut(), st.a.as_ref()) };
+            match (dst, src) {
+                (Some(d), Some(s)) => {
+                    d.h.merge(&s.h).unwrap();
+                    d.ranges.extend_from_slice(&s.ranges);
+                    format!("nz={}", nz(&d.h))
+                }
+                _ => "none".into(),
+            }
         }
         "hist" => match which(st, ws[1]) {
             Some(s) => hist(&s.h, s.p),
@@ -281,7 +470,7 @@ fn step(st: &mut St, ws: &[&str]) -> String {
         },
         "bound" => match which(st, ws[1]) {
             Some(s) => {
-                if within(s.h.cardinality() as u64, s.n, s.n, s.p, 6, 1) {
+                if within(s.h.cardinality() as u64, s.n(), s.n(), s.p, 6, 1) {
                     "within".into()
                 } else {
                     "outside".into()
